@@ -1,12 +1,14 @@
 /-
   OFV.Lemmas.Sw3Match — OXM TLVs of the Nicira class NXM_1 (class 1):
     * `nxmKind`        : field number ↦ (Go payload type, shape of the payload) for every field of the class that
-                         `DecodeMatchField` allocates a decoder for (the 16 registers included)
+                         `DecodeMatchField` has a `case` for (the 16 registers included): all 66 have a decoder
     * `Nxm`, `nxm_fieldDec` : every such TLV, with or without mask, is read back as its field, value and mask
-    * `NxmNil`, `field_nxmNil_panic` : the eleven fields that have a `case` WITHOUT a body in `DecodeMatchField`
-                         (tun_id, ip_frag, ip_ecn, ip_ttl, mpls_ttl, tcp_flags, dp_hash, recirc_id, tun_gbp_id,
-                         tun_gbp_flags, tun_flags): the decoder calls a method of a nil interface — a PANIC
+    * `NxmRaw`, `nxmKind_raw` : the eleven fields without a Go type of their own (tun_id, ip_frag, ip_ecn, ip_ttl,
+                         mpls_ttl, tcp_flags, dp_hash, recirc_id, tun_gbp_id, tun_gbp_flags, tun_flags): their payload is
+                         kept in a `ByteArrayField` whose length comes from the TLV header, like tun_metadata / xxreg
+                         (before the repair of `DecodeMatchField` their `case` had no body and the decoder panicked)
     * `NxmUnknown`, `field_nxmUnknown_err` : the field numbers of the class without a `case`: an error
+    * `field_otherClass_panic` : a TLV of a class other than 0x8000 / 1 / 0xffff: `log.Panicf` — a PANIC
     * `match_fieldErr`, `match_fieldPanic` : a match in which such a TLV follows any list of decodable TLVs
   Used by OFV/Props/C04c.lean.
 -/
@@ -89,7 +91,8 @@ inductive NxmVal
   | label (b : Bytes)
   /-- tunnel endpoint IPv4 address -/
   | tun4 (a b c d : UInt8)
-  /-- byte string whose length is taken from the TLV header (tun_metadata: up to 124 bytes; xxreg: 16 bytes) -/
+  /-- byte string whose length is taken from the TLV header (tun_metadata: up to 124 bytes; xxreg: 16 bytes; tun_id: 8;
+      recirc_id, dp_hash: 4; tcp_flags, tun_gbp_id, tun_flags: 2; ip_frag, ip_ecn, ip_ttl, mpls_ttl, tun_gbp_flags: 1) -/
   | arr (b : Bytes)
 
 namespace NxmVal
@@ -123,10 +126,11 @@ theorem bytes_length_lt (v : NxmVal) (h : v.OK) : v.bytes.length < 128 := by
 end NxmVal
 
 /-- Nicira extension `nxm_header` fields of class 1 (nicira-ext.h / meta-flow.h numbering): field number ↦ (Go type that
-    holds the value, shape), for the 66 fields `DecodeMatchField` allocates a decoder for.  (`case` without a body:
-    `NxmNil`; no `case`: `NxmUnknown`.) -/
+    holds the value, shape), for the 66 fields `DecodeMatchField` has a `case` for — each of them allocates a decoder.
+    (The eleven fields held in a `ByteArrayField` for want of a Go type of their own: `NxmRaw`; no `case`: `NxmUnknown`.) -/
 def nxmKind : Nat → Option (String × NShape)
   | 0 | 1 | 2 | 3 | 4 | 5 | 6 | 7 | 8 | 9 | 10 | 11 | 12 | 13 | 14 | 15 => some ("Uint32Message", .m32)   -- NXM_NX_REG0..15
+  | 16 => some ("ByteArrayField", .arr)            -- NXM_NX_TUN_ID
   | 17 => some ("ArpXHaField", .std .mac)          -- NXM_NX_ARP_SHA
   | 18 => some ("ArpXHaField", .std .mac)          -- NXM_NX_ARP_THA
   | 19 => some ("Ipv6SrcField", .std .ip6)         -- NXM_NX_IPV6_SRC
@@ -136,12 +140,17 @@ def nxmKind : Nat → Option (String × NShape)
   | 23 => some ("Ipv6DstField", .std .ip6)         -- NXM_NX_ND_TARGET
   | 24 => some ("EthDstField", .std .mac)          -- NXM_NX_ND_SLL (sic: the library stores it in an EthDstField)
   | 25 => some ("EthSrcField", .std .mac)          -- NXM_NX_ND_TLL (sic)
+  | 26 => some ("ByteArrayField", .arr)            -- NXM_NX_IP_FRAG
   | 27 => some ("IPv6FlowLabelField", .std .u32)   -- NXM_NX_IPV6_LABEL
+  | 28 | 29 | 30 => some ("ByteArrayField", .arr)  -- NXM_NX_IP_ECN, NXM_NX_IP_TTL, NXM_NX_MPLS_TTL
   | 31 => some ("TunnelIpv4SrcField", .tun4)       -- NXM_NX_TUN_IPV4_SRC
   | 32 => some ("TunnelIpv4DstField", .tun4)       -- NXM_NX_TUN_IPV4_DST
   | 33 => some ("Uint32Message", .m32)             -- NXM_NX_PKT_MARK
+  | 34 | 35 | 36 => some ("ByteArrayField", .arr)  -- NXM_NX_TCP_FLAGS, NXM_NX_DP_HASH, NXM_NX_RECIRC_ID
   | 37 => some ("Uint32Message", .m32)             -- NXM_NX_CONJ_ID
+  | 38 | 39 => some ("ByteArrayField", .arr)       -- NXM_NX_TUN_GBP_ID, NXM_NX_TUN_GBP_FLAGS
   | 40 | 41 | 42 | 43 | 44 | 45 | 46 | 47 => some ("ByteArrayField", .arr)    -- NXM_NX_TUN_METADATA0..7
+  | 104 => some ("ByteArrayField", .arr)           -- NXM_NX_TUN_FLAGS
   | 105 => some ("Uint32Message", .m32)            -- NXM_NX_CT_STATE
   | 106 => some ("Uint16Message", .m16)            -- NXM_NX_CT_ZONE
   | 107 => some ("Uint32Message", .m32)            -- NXM_NX_CT_MARK
@@ -266,15 +275,34 @@ theorem nxm_fieldDec (o : Nxm) (h : o.WF) : FieldDec o.bytes o.toV := by
     rw [hmask, hkk]
     exact this
 
-/-! ### class-1 fields without a decoder -/
+/-! ### the eleven class-1 fields held in a byte array; class-1 field numbers without a `case`; other classes -/
 
-/-- the eleven fields of class NXM_1 for which `DecodeMatchField` has a `case` WITHOUT a body (`val` stays a nil
-    interface): tun_id 16, ip_frag 26, ip_ecn 28, ip_ttl 29, mpls_ttl 30, tcp_flags 34, dp_hash 35, recirc_id 36,
-    tun_gbp_id 38, tun_gbp_flags 39, tun_flags 104 -/
-def NxmNil (f : Nat) : Prop :=
+/-- the eleven fields of class NXM_1 the library has no Go type for: tun_id 16, ip_frag 26, ip_ecn 28, ip_ttl 29,
+    mpls_ttl 30, tcp_flags 34, dp_hash 35, recirc_id 36, tun_gbp_id 38, tun_gbp_flags 39, tun_flags 104.
+    `DecodeMatchField` decodes their payload into a `ByteArrayField` of the length the TLV header gives (half of it
+    with a mask).  (Before the repair their `case` had no body: `val` stayed a nil interface and the decoder panicked.) -/
+def NxmRaw (f : Nat) : Prop :=
   f = 16 ∨ f = 26 ∨ f = 28 ∨ f = 29 ∨ f = 30 ∨ f = 34 ∨ f = 35 ∨ f = 36 ∨ f = 38 ∨ f = 39 ∨ f = 104
 
-instance (f : Nat) : Decidable (NxmNil f) := by unfold NxmNil; infer_instance
+instance (f : Nat) : Decidable (NxmRaw f) := by unfold NxmRaw; infer_instance
+
+/-- each of the eleven fields is in the table, with the byte-array kind -/
+theorem nxmKind_raw (f : Nat) (hf : NxmRaw f) : nxmKind f = some ("ByteArrayField", .arr) := by
+  rcases hf with h | h | h | h | h | h | h | h | h | h | h <;> subst h <;> rfl
+
+/-- the class-1 TLV of one of these fields (or of tun_metadata / xxreg) holding the bytes `data`, with an optional mask -/
+def rawNxm (f : Nat) (data : Bytes) (mask : Option Bytes) : Nxm := ⟨f, .arr data, mask.map .arr⟩
+
+theorem rawNxm_wf (f : Nat) (hf : nxmKind f = some ("ByteArrayField", .arr)) (data : Bytes) (hl : data.length < 128)
+    (mask : Option Bytes) (hm : ∀ m, mask = some m → m.length = data.length) : (rawNxm f data mask).WF := by
+  refine ⟨"ByteArrayField", hf, hl, ?_⟩
+  intro m hmm
+  cases mask with
+  | none => cases hmm
+  | some mb =>
+    cases hmm
+    have := hm mb rfl
+    exact ⟨rfl, by show mb.length < 128; omega, this⟩
 
 /-- all field numbers of class NXM_1 that `DecodeMatchField` has a `case` for -/
 def nxmCases : List Nat :=
@@ -302,27 +330,6 @@ theorem lookup_none {β} (l : List (Nat × β)) (f : Nat) (h : f ∉ l.map Prod.
     simp only [List.lookup, hne]
     exact ih h.2
 
-/-- a class-1 TLV of a field whose `case` has no body (with or without mask bit, any length byte, any payload): the
-    field decoder PANICS -/
-theorem field_nxmNil_panic (f : Nat) (hf : NxmNil f) (m : Nat) (hm : m < 2) (ln : UInt8) (d : Slice) (hwf : d.WF)
-    (rest : Bytes) (hb : d.bytes = be16 1 ++ ([UInt8.ofNat (2 * f + m), ln] ++ rest)) :
-    MatchField.unmarshal MatchField.zero d = .panic := by
-  have hl : d.len = 4 + rest.length := by rw [← Sw.bytes_length d hwf, hb]; simp; omega
-  obtain ⟨d4, e1, _, _, _⟩ := Sw.fromR_at d hwf 4 (by omega)
-  have hf128 : f < 128 := by rcases hf with h | h | h | h | h | h | h | h | h | h | h <;> omega
-  have hfld := fld_any f hf128 m hm
-  have hdecode : ∀ hmask, DecodeMatchField 1 f ln.toNat hmask d4 = .panic := by
-    intro hmask
-    rcases hf with h | h | h | h | h | h | h | h | h | h | h <;> subst h <;> rfl
-  unfold MatchField.unmarshal MatchField.zero
-  simp only [Sw.u16From_at d 0 1 _ hb, Sw.byteAt_at d 2 (UInt8.ofNat (2 * f + m)) _ (by rw [hb]; rfl),
-    Sw.byteAt_at d 3 ln _ (by rw [hb]; rfl), Res.bind_ok, hfld]
-  rw [if_neg (by decide)]
-  show (d.fromR 4 >>= fun d2 => DecodeMatchField 1 f ln.toNat _ d2 >>= _) = _
-  rw [e1]
-  simp only [Res.bind_ok, hdecode]
-  rfl
-
 /-- a class-1 TLV of a field number without a `case`: the field decoder returns an error -/
 theorem field_nxmUnknown_err (f : Nat) (hf : NxmUnknown f) (m : Nat) (hm : m < 2) (ln : UInt8) (d : Slice) (hwf : d.WF)
     (rest : Bytes) (hb : d.bytes = be16 1 ++ ([UInt8.ofNat (2 * f + m), ln] ++ rest)) :
@@ -345,6 +352,29 @@ theorem field_nxmUnknown_err (f : Nat) (hf : NxmUnknown f) (m : Nat) (hm : m < 2
   simp only [Res.bind_ok, hdecode]
   rfl
 
+/-- a TLV of a class `DecodeMatchField` does not know — any class but OPENFLOW_BASIC 0x8000, NXM_1 1, EXPERIMENTER 0xffff
+    (NXM_0 0, the reserved classes …): `log.Panicf("Unsupported match field …")` — the field decoder PANICS, whatever the
+    field byte, the length byte and the payload -/
+theorem field_otherClass_panic (cls : UInt16) (h0 : cls.toNat ≠ 0x8000) (h1 : cls.toNat ≠ 1) (h2 : cls.toNat ≠ 0xffff)
+    (fld ln : UInt8) (d : Slice) (hwf : d.WF) (rest : Bytes) (hb : d.bytes = be16 cls ++ ([fld, ln] ++ rest)) :
+    MatchField.unmarshal MatchField.zero d = .panic := by
+  have hl : d.len = 4 + rest.length := by rw [← Sw.bytes_length d hwf, hb]; simp; omega
+  obtain ⟨d4, e1, _, _, _⟩ := Sw.fromR_at d hwf 4 (by omega)
+  have hdecode : ∀ f l hmask, DecodeMatchField cls.toNat f l hmask d4 = .panic := by
+    intro f l hmask
+    unfold DecodeMatchField
+    rw [if_neg (show ¬ cls.toNat = Gen.openflow13.OXM_CLASS_OPENFLOW_BASIC from h0),
+      if_neg (show ¬ cls.toNat = Gen.openflow13.OXM_CLASS_NXM_1 from h1),
+      if_neg (show ¬ cls.toNat = Gen.openflow13.OXM_CLASS_EXPERIMENTER from h2)]
+  unfold MatchField.unmarshal MatchField.zero
+  simp only [Sw.u16From_at d 0 cls _ hb, Sw.byteAt_at d 2 fld _ (by rw [hb]; rfl),
+    Sw.byteAt_at d 3 ln _ (by rw [hb]; rfl), Res.bind_ok]
+  rw [if_neg (show ¬ cls.toNat = Gen.openflow13.OXM_CLASS_EXPERIMENTER from h2)]
+  show (d.fromR 4 >>= fun d2 => DecodeMatchField cls.toNat _ ln.toNat _ d2 >>= _) = _
+  rw [e1]
+  simp only [Res.bind_ok, hdecode]
+  rfl
+
 /-! ### a match in which a TLV the field decoder fails on follows decodable TLVs -/
 
 /-- the field decoder returns an error on the TLV header `bad`, whatever follows -/
@@ -363,9 +393,9 @@ theorem fieldErr_nxmUnknown (f : Nat) (hf : NxmUnknown f) (m : Nat) (hm : m < 2)
     FieldErr (be16 1 ++ [UInt8.ofNat (2 * f + m), ln]) :=
   fun d hwf rest hb => field_nxmUnknown_err f hf m hm ln d hwf rest (by rw [hb]; simp only [List.append_assoc])
 
-theorem fieldPanic_nxmNil (f : Nat) (hf : NxmNil f) (m : Nat) (hm : m < 2) (ln : UInt8) :
-    FieldPanic (be16 1 ++ [UInt8.ofNat (2 * f + m), ln]) :=
-  fun d hwf rest hb => field_nxmNil_panic f hf m hm ln d hwf rest (by rw [hb]; simp only [List.append_assoc])
+theorem fieldPanic_otherClass (cls : UInt16) (h0 : cls.toNat ≠ 0x8000) (h1 : cls.toNat ≠ 1) (h2 : cls.toNat ≠ 0xffff)
+    (fld ln : UInt8) : FieldPanic (be16 cls ++ [fld, ln]) :=
+  fun d hwf rest hb => field_otherClass_panic cls h0 h1 h2 fld ln d hwf rest (by rw [hb]; simp only [List.append_assoc])
 
 /-- a match whose TLVs are a decodable prefix followed by a TLV the field decoder returns an error on: the decoder stops
     there, keeps the fields read so far, and reports an error -/
